@@ -158,7 +158,11 @@ impl OutcomeTestGenerator for Outcome {
                     for line in stream.split_at_newline() {
                         generated.push_str(&self.generate_expectation_line(line))
                     }
-                    generated.push_str(&formatln!("[{}]", *actual));
+                    // an exit code of zero is the default: it is written without a line,
+                    // as for a test case that passes
+                    if *actual != 0 {
+                        generated.push_str(&formatln!("[{}]", *actual));
+                    }
                     Ok(generated)
                 }
                 TestCaseError::InternalError(err) => {
